@@ -45,11 +45,11 @@ var repOps = []opInfo{binOps[0], binOps[1], binOps[2], binOps[5], binOps[9], bin
 
 var unOps = []opInfo{{"-", "ItemMinus", 8}, {"!", "LogicNot", 8}}
 
-var identPool = []string{"a", "b", "c", "x1", "foo_bar", "hp%", "a-b", "é", "变量", "_", "٣x", "lets", "iff"}
+var identPool = []string{"a", "b", "c", "x1", "foo_bar", "a_name_longer_than_ten_bytes", "exactly10b", "hp%", "a-b", "é", "变量", "_", "٣x", "lets", "iff"}
 var numberPool = []string{"0", "1", "2", "42", "007", "-3", "1.5", ".5", "5.", "-0.25", "9223372036854775807",
 	"9007199254740993", "9223372036854775808", "-9223372036854775808", "-9223372036854775809", "123456789012345678901234567890",
 	"0.1", "1.0", "-0", "-0.0", "3.14159", "100000000000000000000000.5", "0.000001", "1.7976931348623157"}
-var stringPool = []string{`"s"`, `""`, `"a b"`, `"é"`, `"q\"q"`, `"\\"`, `"# no comment"`, `"// x"`, `"let"`, "\"\xff\""}
+var stringPool = []string{`"s"`, `""`, `"a b"`, `"hello, world and more"`, `"é"`, `"q\"q"`, `"\\"`, `"# no comment"`, `"// x"`, `"let"`, "\"\xff\""}
 
 func tokT(typ, text string) term.T { return term.C("Tok", term.C(typ), gcsStr(text)) }
 
@@ -1001,6 +1001,16 @@ func genTotal(r *term.Rng, idx int) term.T {
 			s = s[:65536]
 		}
 		return mkInput(nil, byteChunks([]byte(s), 4096))
+	}
+	if r.Chance(1, 25) {
+		// a map / argument list with a forgotten comma (or a stray token) before a token of ANY length and kind:
+		// the error message of that path prints the whole offending token
+		tok := term.Pick(r, []string{"a_name_longer_than_ten_bytes", "exactly10b", "12345678901", "1234567890", "\"hello, world\"",
+			"\"short\"", "fallthrough", "continue", "x", "123456789012345678901234567890", "0.000000000001", "变量变量变量变量"})
+		pre := term.Pick(r, []string{"let m = [ 1 , 2", "print ( [ x", "[ 1", "let t = [ a = 1 , b", "f ( [ \"s\"", "return [ [ 1 ] "})
+		post := term.Pick(r, []string{"] ;", "] ) ;", ", 3 ] ;", "", "]"})
+		toks := append(append(strings.Fields(pre), tok), strings.Fields(post)...)
+		return mkInput(nil, render(r, toks, r.Bool()))
 	}
 	switch r.Intn(20) {
 	case 0, 1, 2:
